@@ -50,6 +50,7 @@ public:
                  * clear for preventing heap use after free by reference of
                  * need_delete
                  */
+                YK_VERIF(k_store, &lv_.at(pos), f_lv, 0);
                 lv_.at(pos).init_lv();
             }
         }
@@ -575,6 +576,7 @@ public:
 
     void shift_left_border_member(const std::size_t start_pos,
                                   const std::size_t shift_size) {
+        YK_VERIF(k_store, this, f_bulk, 0);
         memmove(get_lv_at(start_pos - shift_size), get_lv_at(start_pos),
                 sizeof(link_or_value) * (key_slice_length - start_pos));
     }
